@@ -19,7 +19,10 @@ CONSTANTS Cap,          \* pipe capacity
           Prog,         \* the child's program: sequence of instruction records
           Variant,      \* "run_process" | "communicate"
           Drain,        \* TRUE: the parent drains the pipes after the child has exited (the code); FALSE: legacy
-          CloseAll      \* TRUE: pipe ends still open at return are closed (the code); FALSE: legacy (descriptor leak)
+          CloseAll,     \* TRUE: pipe ends still open at return are closed (the code); FALSE: legacy (descriptor leak)
+          Timeout,      \* TRUE: run_process was given a deadline (timeout_usecs > 0)
+          Escalate      \* TRUE: a child that survives SIGTERM gets SIGKILL at the second deadline (the code);
+                        \* FALSE: regression model - the termination request is only repeated
 
 VARIABLES pin, pout, perr,   \* pipe buffers
           cfd,               \* child-side ends open?  [in, out, err]
@@ -27,8 +30,10 @@ VARIABLES pin, pout, perr,   \* pipe buffers
           cpc, cprog, chold, cgot, cwrote,   \* child: program counter, progress within W, byte held by Cat, bytes read, bytes written per stream
           cstate,            \* "running" | "zombie" | "reaped"
           code,              \* exit code the child chose
-          ppc, ready, sent, acc, status, threw
-vars == <<pin, pout, perr, cfd, pfd, cpc, cprog, chold, cgot, cwrote, cstate, code, ppc, ready, sent, acc, status, threw>>
+          ppc, ready, sent, acc, status, threw,
+          tm                 \* deadline handling: [timer: "off" | "armed" | "expired", termed: SIGTERM already sent?,
+                             \*                     ign: child ignores SIGTERM?, sig: signal pending for the child]
+vars == <<pin, pout, perr, cfd, pfd, cpc, cprog, chold, cgot, cwrote, cstate, code, ppc, ready, sent, acc, status, threw, tm>>
 
 Streams == {"out", "err"}
 Buf(s) == IF s = "out" THEN pout ELSE perr
@@ -41,10 +46,11 @@ Init ==
   /\ cpc = 1 /\ cprog = 0 /\ chold = 0 /\ cgot = <<>> /\ cwrote = [out |-> <<>>, err |-> <<>>]
   /\ cstate = "running" /\ code = -1
   /\ ppc = "start" /\ ready = {} /\ sent = 0 /\ acc = [out |-> <<>>, err |-> <<>>] /\ status = -1 /\ threw = FALSE
+  /\ tm = [timer |-> IF Timeout THEN "armed" ELSE "off", termed |-> FALSE, ign |-> FALSE, sig |-> "none"]
 
 (* ------------------------------------------------------------------ child *)
 Ins == Prog[cpc]
-CUnch == UNCHANGED <<pfd, ppc, ready, sent, acc, status, threw>>
+CUnch == UNCHANGED <<pfd, ppc, ready, sent, acc, status, threw, tm>>
 NextByte(s) == Len(cwrote[s]) + 1            \* bytes of a stream are numbered 1, 2, 3, ...
 
 ChildWrite ==            \* W(stream, n): one write() call moves as much as fits, at least one byte
@@ -96,10 +102,30 @@ ChildExit ==             \* Exit(code): every descriptor of the child is closed,
   /\ cfd' = [in |-> FALSE, out |-> FALSE, err |-> FALSE]
   /\ UNCHANGED <<pin, pout, perr, cpc, cprog, chold, cgot, cwrote>> /\ CUnch
 
-Child == ChildWrite \/ ChildRead \/ ChildCat \/ ChildClose \/ ChildExit
+ChildIgnTerm ==          \* signal(SIGTERM, SIG_IGN)
+  /\ cstate = "running" /\ cpc <= Len(Prog) /\ Ins.op = "IgnTerm"
+  /\ tm' = [tm EXCEPT !.ign = TRUE] /\ cpc' = cpc + 1
+  /\ UNCHANGED <<pin, pout, perr, cfd, pfd, cprog, chold, cgot, cwrote, cstate, code, ppc, ready, sent, acc, status, threw>>
+(* "Hang" has no action: the child blocks for ever (a child that outlives every deadline) *)
+
+Child == ChildWrite \/ ChildRead \/ ChildCat \/ ChildClose \/ ChildExit \/ ChildIgnTerm
+
+(* ------------------------------------------------------------------ kernel: timer and signals *)
+TimerFire ==             \* the deadline passes (at any moment while it is armed)
+  /\ tm.timer = "armed" /\ ppc \notin {"done", "threw"}
+  /\ tm' = [tm EXCEPT !.timer = "expired"]
+  /\ UNCHANGED <<pin, pout, perr, cfd, pfd, cpc, cprog, chold, cgot, cwrote, cstate, code, ppc, ready, sent, acc, status, threw>>
+SignalDeliver ==         \* a pending signal reaches the child: SIGKILL always ends it, SIGTERM unless ignored
+  /\ tm.sig # "none" /\ cstate = "running"
+  /\ tm' = [tm EXCEPT !.sig = "none"]
+  /\ IF tm.sig = "KILL" \/ ~tm.ign
+       THEN cstate' = "zombie" /\ code' = (IF tm.sig = "KILL" THEN 9 ELSE 15) /\ cfd' = [in |-> FALSE, out |-> FALSE, err |-> FALSE]
+       ELSE UNCHANGED <<cstate, code, cfd>>
+  /\ UNCHANGED <<pin, pout, perr, pfd, cpc, cprog, chold, cgot, cwrote, ppc, ready, sent, acc, status, threw>>
+Kernel == TimerFire \/ SignalDeliver
 
 (* ------------------------------------------------------------------ parent *)
-PUnch == UNCHANGED <<cfd, cpc, cprog, chold, cgot, cwrote, code>>
+PUnch == UNCHANGED <<cfd, cpc, cprog, chold, cgot, cwrote, code, tm>>
 InRegistered == pfd.in /\ sent < Payload
 (* descriptors poll() would report: readable data or hang-up on out/err, room (or a vanished reader) on in *)
 (* communicate() services stdout only: the stderr pipe stays with the Subprocess object, unread *)
@@ -123,7 +149,7 @@ P_Wait ==                \* waitpid(WNOHANG)
 P_Poll ==                \* poll(): returns the ready descriptors, or times out with none
   /\ ppc = "poll"
   /\ ready' = ReadySet
-  /\ ppc' = IF ReadySet = {} THEN "wait" ELSE "handle"
+  /\ ppc' = IF ReadySet = {} THEN "deadline" ELSE "handle"
   /\ UNCHANGED <<pin, pout, perr, pfd, cstate, sent, acc, status, threw>> /\ PUnch
 
 P_HandleRead(s) ==       \* POLLIN: read what is there; communicate also sees end of stream here
@@ -153,8 +179,17 @@ P_HandleWrite ==         \* POLLOUT: a non-blocking write moves 1..room bytes; E
          ELSE UNCHANGED <<pin, sent, pfd, threw, ppc>>
   /\ UNCHANGED <<pout, perr, cstate, acc, status>> /\ PUnch
 
-P_HandleDone == ppc = "handle" /\ ready = {} /\ ppc' = "wait"
+P_HandleDone == ppc = "handle" /\ ready = {} /\ ppc' = "deadline"
                 /\ UNCHANGED <<pin, pout, perr, pfd, cstate, ready, sent, acc, status, threw>> /\ PUnch
+
+P_Deadline ==            \* end of a loop iteration: past the deadline, request termination, then (5 s later) force it
+  /\ ppc = "deadline"
+  /\ ppc' = "wait"
+  /\ IF tm.timer = "expired"
+       THEN tm' = [tm EXCEPT !.timer = "armed", !.termed = TRUE,
+                             !.sig = IF tm.termed /\ Escalate THEN "KILL" ELSE IF tm.sig = "KILL" THEN "KILL" ELSE "TERM"]
+       ELSE tm' = tm
+  /\ UNCHANGED <<pin, pout, perr, cfd, pfd, cpc, cprog, chold, cgot, cwrote, cstate, code, ready, sent, acc, status, threw>>
 
 P_Drain ==               \* after the child was reaped: read what is left in each pipe that is still open
   /\ ppc = "drain"
@@ -174,14 +209,14 @@ P_KillReap ==            \* exception path: ~Subprocess kills and reaps the chil
   /\ ppc = "kill"
   /\ cstate' = "reaped" /\ cfd' = [in |-> FALSE, out |-> FALSE, err |-> FALSE]
   /\ ppc' = "threw"
-  /\ UNCHANGED <<pin, pout, perr, pfd, cpc, cprog, chold, cgot, cwrote, code, ready, sent, acc, status, threw>>
+  /\ UNCHANGED <<pin, pout, perr, pfd, cpc, cprog, chold, cgot, cwrote, code, ready, sent, acc, status, threw, tm>>
 
 Parent == P_Start \/ P_Wait \/ P_Poll \/ (\E s \in Streams : P_HandleRead(s)) \/ P_HandleWrite \/ P_HandleDone
-          \/ P_Drain \/ P_Close \/ P_KillReap
+          \/ P_Deadline \/ P_Drain \/ P_Close \/ P_KillReap
 
-Next == Child \/ Parent
+Next == Child \/ Parent \/ Kernel
 Spec == Init /\ [][Next]_vars
-FairSpec == Spec /\ WF_vars(Child) /\ WF_vars(Parent)
+FairSpec == Spec /\ WF_vars(Child) /\ WF_vars(Parent) /\ WF_vars(TimerFire) /\ WF_vars(SignalDeliver)
 
 (* ------------------------------------------------------------------ the property *)
 Finished == ppc \in {"done", "threw"}
@@ -193,8 +228,11 @@ Reaped == Finished => cstate = "reaped"
 AllFdsClosed == (Finished /\ Variant = "run_process") => ~pfd.in /\ ~pfd.out /\ ~pfd.err
 (* a child that reads its input to the end received the whole payload, in order *)
 ReadsAll == \E i \in DOMAIN Prog : Prog[i].op \in {"RAll", "Cat"}
-StdinDelivered == (ppc = "done" /\ ReadsAll /\ ~(\E i \in DOMAIN Prog : Prog[i].op = "CloseIn"))
+StdinDelivered == (ppc = "done" /\ ReadsAll /\ ~(\E i \in DOMAIN Prog : Prog[i].op = "CloseIn") /\ ~tm.termed)   \* (a child ended by the deadline may not have read everything)
                     => cgot = [i \in 1..Payload |-> i]
-NoThrowUnlessEpipe == threw => (\E i \in DOMAIN Prog : Prog[i].op = "CloseIn") \/ ~ReadsAll
+NoThrowUnlessEpipe == threw => (\E i \in DOMAIN Prog : Prog[i].op = "CloseIn") \/ ~ReadsAll \/ tm.termed
+(* a deadline ends the child: it is dead and reaped when the call returns, with the signal that ended it as status *)
+Hangs == \E i \in DOMAIN Prog : Prog[i].op = "Hang"
+TimeoutEnds == (ppc = "done" /\ Hangs) => (cstate = "reaped" /\ status \in {9, 15})
 Termination == <>Finished
 =============================================================================
